@@ -1,11 +1,11 @@
 package main
 
 import (
-	"sort"
 	"fmt"
 	"go/types"
 	"math"
 	"math/big"
+	"sort"
 	"strings"
 )
 
@@ -411,13 +411,15 @@ type FuncSym struct {
 }
 
 type SpecDef struct {
-	Name   string
-	Params []string
-	Sorts  []string
-	Body   Expr
-	Rec    bool // recursive: emitted once as define-fun-rec, applied by name
-	Opaque bool // applied as an uninterpreted symbol unless the contract reveals it
-	IntResult bool // opaque symbol of sort Int (default Bool)
+	Name       string
+	Params     []string
+	Sorts      []string
+	Body       Expr
+	Rec        bool // recursive: emitted once as define-fun-rec, applied by name
+	Opaque     bool // applied as an uninterpreted symbol unless the contract reveals it
+	IntResult  bool // opaque symbol of sort Int (default Bool)
+	StrResult  bool // opaque symbol of sort Str
+	StrsResult bool // opaque symbol of sort (GSeq Str)
 }
 
 func (env *Env) child() *Env {
@@ -1024,6 +1026,14 @@ func callSMT(e *ECall, env *Env) Term {
 		if d.Opaque && !env.Reveal[d.Name] {
 			if d.IntResult {
 				return T(SInt, "(spec.%s %s)", d.Name, joinTerms(a))
+			}
+			if d.StrResult {
+				return T(SStr, "(spec.%s %s)", d.Name, joinTerms(a))
+			}
+			if d.StrsResult {
+				r := T(SeqOf(SStr), "(spec.%s %s)", d.Name, joinTerms(a))
+				r.Ty = types.NewSlice(types.Typ[types.String])
+				return r
 			}
 			return T(SBool, "(spec.%s %s)", d.Name, joinTerms(a))
 		}
